@@ -437,6 +437,17 @@ impl<'buf, IO: Io> Connection<'_, 'buf, IO> {
         Ok(())
     }
 
+    /// Finish the packet that an earlier, cancelled operation left partly written, if any.
+    pub(super) async fn finish_in_progress(&mut self) -> Result<(), Error<IO::Error>> {
+        while let Some(step) = self.session.data.outbound.next_step() {
+            if !step.is_in_progress() {
+                break;
+            }
+            self.perform_outbound_step(step, Instant::now()).await?;
+        }
+        Ok(())
+    }
+
     pub(super) async fn flush_outbound(&mut self) -> Result<(), Error<IO::Error>> {
         loop {
             self.maybe_queue_pingreq(Instant::now())?;
